@@ -76,7 +76,9 @@ chk("C11", "model_checking",
     "the unchanged text is a no-op and that nothing outside self is written.",
     "The stored checksum is discovered as a term D(text); collision-freeness assumed for the digest's argument; compile step abstracted "
     "into four outcomes; extra per-instance state: invariant strengthened to 'any value' and re-checked, else a bounded history search "
-    "(incl. round trips over 39 confusable texts) as replay; induction over histories argued in DESIGN.md.",
+    "(incl. round trips over 39 confusable texts and experiments named after the generated code's identifiers) as replay and, "
+    "on every run, as a cross-check of the abstract compile step; a representation-independent behavioural step analysis from "
+    "three bounded pre-histories; induction over histories argued in DESIGN.md.",
     "symbolic execution (pysym) of the evaluator class + z3 EUF/BV, inductive step", "DESIGN.md section 6 C11")
 
 chk("C16", "translation_validation",
